@@ -19,7 +19,7 @@ Definition content_op (a b : content) : content :=
 Infix "⊕" := content_op (at level 50, left associativity).
 
 (* content per series; a series that is absent is absent (not the unit) *)
-Definition cmap : Type := gmap skey content.
+Notation cmap := (gmap skey content) (only parsing).
 Definition cmap_op (x y : cmap) : cmap := union_with (λ a b, Some (a ⊕ b)) x y.
 Infix "⊕ₘ" := cmap_op (at level 50, left associativity).
 Definition cmap_sum (l : list cmap) : cmap := foldr cmap_op ∅ l.
@@ -79,9 +79,17 @@ Definition held {A} (xs : list (option A)) : list A := omap id xs.
 Definition combined {A B} (f : list A → B) (xs : list (option A)) : option B :=
   match held xs with [] => None | l => Some (f l) end.
 
+(* the entries the maps [ms] hold for series [k] in one of the four fields, in list order *)
+Definition series_at {V} (fld : mmap → gmap skey V) (ms : list mmap) (k : skey) : list V :=
+  held ((λ m, fld m !! k) <$> ms).
+
+(* the merged entry [r] exists iff some leaf holds the series, and then relates to the
+   held entries [hs] by [ok] *)
+Definition merged_as {V} (ok : list V → V → Prop) (hs : list V) (r : option V) : Prop :=
+  match r with Some v => hs ≠ [] ∧ ok hs v | None => hs = [] end.
+
 Definition zsum (l : list Z) : Z := foldr Z.add 0%Z l.
 Definition qsum (l : list Qc) : Qc := foldr Qcplus 0%Qc l.
-Definition set_union (l : list (gset str)) : gset str := ⋃ l.
 
 (* [r] is the newest of the timestamps [xs] (absent iff all are absent) *)
 Definition is_newest (xs : list (option Z)) (r : option Z) : Prop :=
